@@ -127,7 +127,7 @@ class C03(EngineACheck):
     )
     EXPECTED_PROBES = ["crash_points", "edited_runs_checked", "transferred_repositories_checked",
                        "shallow_hits_in_recovery"]
-    QUICK_SECONDS = 45.0
+    QUICK_SECONDS = 55.0
     RUN_TIMEOUT = 300.0
 
     def run_one(self, ch: Choices) -> RunOutcome:
